@@ -311,9 +311,11 @@ def jsonable(o, depth=0):
         return o if o == o and abs(o) != float('inf') else repr(o)
     if isinstance(o, dict):
         return {(k if isinstance(k, str) else repr(k)): jsonable(v, depth + 1) for k, v in o.items()}
+    if hasattr(o, 'raw') and isinstance(o, tuple):
+        return repr(o.raw)
     if isinstance(o, (list, tuple)):
         if isinstance(o, tuple) and depth > 0:
-            return {'tuple': [jsonable(v, depth + 1) for v in o]}
+            return repr(o)
         return [jsonable(v, depth + 1) for v in o]
     return repr(o)
 
